@@ -287,17 +287,53 @@ Qed.
 
 (* every request of the property, pen changes included: well-formed tokens, hence the VT fed
    with the rendered bytes is in the state the token-level theorems describe *)
+(* keep the kernel from unfolding the ten-step folds when it re-checks these small case analyses *)
+Local Strategy opaque [term_setpen term_chpen xterm_chpen do_setpen do_chpen].
+
+Lemma do_pen_parts : forall (is_set : bool) cap colon rgb8 s p s' ts,
+  (if is_set then do_setpen else do_chpen) cap colon rgb8 s p = Some (s', ts) ->
+  exists tp' delta,
+    (if is_set then term_setpen else term_chpen) (tp_colors s) (tp_pen s) p = Some (tp', delta) /\
+    xterm_chpen cap colon rgb8 delta tp' = Some ts.
+Proof.
+  intros is_set cap colon rgb8 s p s' ts H.
+  Local Strategy transparent [do_setpen do_chpen].
+  destruct is_set; [unfold do_setpen in H | unfold do_chpen in H].
+  - destruct (term_setpen (tp_colors s) (tp_pen s) p) as [[tp' delta]|] eqn:Et; [|discriminate H].
+    destruct (xterm_chpen cap colon rgb8 delta tp') as [ts0|] eqn:Ex; [|discriminate H].
+    inversion H; subst. exists tp', delta. split; [reflexivity|exact Ex].
+  - destruct (term_chpen (tp_colors s) (tp_pen s) p) as [[tp' delta]|] eqn:Et; [|discriminate H].
+    destruct (xterm_chpen cap colon rgb8 delta tp') as [ts0|] eqn:Ex; [|discriminate H].
+    inversion H; subst. exists tp', delta. split; [reflexivity|exact Ex].
+Qed.
+
+Lemma drv_req_pen : forall (is_set : bool) t p t' ret ts,
+  drv_req t (if is_set then RSetpen p else RChpen p) = Some (t', ret, ts) ->
+  exists s', (if is_set then do_setpen else do_chpen) chpen_params_capacity (cap_colon (x_caps (t_drv t)))
+               (cap_rgb8 (x_caps (t_drv t))) (mkTp (t_pen t) xterm_colors) p = Some (s', ts).
+Proof.
+  intros is_set t p t' ret ts H.
+  destruct is_set; cbn [drv_req] in H.
+  - destruct (do_setpen chpen_params_capacity (cap_colon (x_caps (t_drv t))) (cap_rgb8 (x_caps (t_drv t)))
+                        (mkTp (t_pen t) xterm_colors) p) as [[s' ts0]|]; [|discriminate H].
+    inversion H; subst. exists s'. reflexivity.
+  - destruct (do_chpen chpen_params_capacity (cap_colon (x_caps (t_drv t))) (cap_rgb8 (x_caps (t_drv t)))
+                       (mkTp (t_pen t) xterm_colors) p) as [[s' ts0]|]; [|discriminate H].
+    inversion H; subst. exists s'. reflexivity.
+Qed.
+
 Lemma pen_tokens_wf : forall (is_set : bool) t p t' ret ts, pen_in_range (t_pen t) -> pen_in_range p ->
   drv_req t (if is_set then RSetpen p else RChpen p) = Some (t', ret, ts) -> Forall wf_token ts.
 Proof.
   intros is_set t p t' ret ts Ht Hp Hd.
-  pose proof (term_pen 256 is_set (t_pen t) (t_pen t) p ltac:(lia) Ht Hp
+  destruct (drv_req_pen is_set t p t' ret ts Hd) as (s' & Hdo).
+  destruct (do_pen_parts is_set _ _ _ _ p s' ts Hdo) as (tp' & delta & Hrun & Hx).
+  cbn [tp_colors tp_pen] in Hrun.
+  pose proof (term_pen xterm_colors is_set (t_pen t) (t_pen t) p ltac:(unfold xterm_colors; lia) Ht Hp
                        (fun a => eq_sym (cache_of_256 (t_pen t) a Ht))) as Hterm.
-  cbv zeta in Hterm. destruct Hterm as (tp' & delta & Hrun & _ & _ & Hdelta & _).
-  destruct is_set; cbn [drv_req] in Hd; unfold do_setpen, do_chpen, xterm_colors in Hd;
-    cbn [tp_pen tp_colors] in Hd; rewrite Hrun in Hd;
-    destruct (xterm_chpen chpen_params_capacity _ _ delta tp') as [ts0|] eqn:Ex; try discriminate;
-    inversion Hd; subst; eapply chpen_tokens_wf; eauto.
+  cbv zeta in Hterm. destruct Hterm as (tp2 & delta2 & Hrun2 & _ & _ & Hdelta & _).
+  rewrite Hrun in Hrun2. inversion Hrun2; subst.
+  eapply chpen_tokens_wf; eauto.
 Qed.
 
 Lemma req_tokens_wf : forall t q v t' ret ts, in_range q v -> req_pen_ok q -> pen_in_range (t_pen t) ->
